@@ -18,3 +18,6 @@ build_plain() {
 build_race() {
   (cd "$HARNESS" && go build -race -tags verif -o "$BUILD/slimverif.race" .) || { echo "INCONCLUSIVE reason=harness build (race) failed against /repo"; exit 2; }
 }
+build_cover() {
+  (cd "$HARNESS" && go build -cover -coverpkg=all -tags verif -o "$BUILD/slimverif.cover" .) || { echo "note: cover build failed; thorough evidence will carry no statement coverage"; rm -f "$BUILD/slimverif.cover"; }
+}
